@@ -6,12 +6,13 @@ from props import lexcommon as lc
 PROP = "C08"
 RENDER = {"ARG": "X", "UARG": "Z", "SH": "-a", "USH": "-z", "LG": "--out", "ULG": "--zz", "SEQ": "-ab", "USEQ": "-az", "OPTS": "OPTIONS",
           "(": "(", ")": ")", "[": "[", "]": "]", "|": "|", "...": "...", "VAL": "=<v>", "--": "--"}
-RENDER2 = dict(RENDER, ARG="Y", SH="-b", LG="--aa", SEQ="-ba", UARG="X1_Q", ULG="--o-ut", VAL="=<a b>")
+RENDER2 = dict(RENDER, ARG="Y", SH="-b", LG="--aa", SEQ="-ba", UARG="X1_Q", ULG="--o-ut", VAL="=<a b>", USEQ="-zay")   # two undeclared letters
+RENDER3 = dict(RENDER, USEQ="-yz", SEQ="-abo", VAL="=<n<10>", LG="--out", UARG="ARG9", ULG="--x9")
 
 
 def render_kinds(kinds, rnd):
     """spec string for a kind sequence + the byte position of every token"""
-    table = RENDER if rnd.random() < 0.5 else RENDER2
+    table = rnd.choice([RENDER, RENDER2, RENDER3])
     s = rnd.choice(["", "", " ", "  ", "\t"])
     pos = []
     for i, k in enumerate(kinds):
